@@ -1,4 +1,5 @@
 import OdmlModel.Model.Registry
+import OdmlModel.Model.TermLoad
 import Driver.ValidCodec
 import Driver.Util
 import Driver.Loop
@@ -98,6 +99,48 @@ def stepJson (r : Run) (j : Json) : Except String Run := do
   let obs := jobj ([("global", encTable st'.global), ("objects", jnat st'.insts.length)] ++ extra)
   pure { st := st', users := users', out := obs :: r.out }
 
+/-! The terminology loader (Model/TermLoad.lean): a case names the stage at which each of its files
+    ends and a sequence of entries into the loader. -/
+
+def decFile (s : String) : Except String TermLoad.FileState :=
+  match s with
+  | "unreachable" => pure .unreachable
+  | "unparsable" => pure .unparsable
+  | "unfinalizable" => pure .unfinalizable
+  | "good" => pure .good
+  | _ => throw s!"bad file state {s}"
+
+def encOutcome : TermLoad.Outcome → Json
+  | .doc => jstr "doc"
+  | .none => jstr "none"
+  | .raised => jstr "raised"
+
+def encLoaded (t : TermLoad.Table) : Json :=
+  jarr ((t.toArray.qsort (fun a b => a.1 < b.1)).toList.map fun e => jarr [jnat e.1, jbool e.2])
+
+def loaderStep (files : Nat → TermLoad.FileState) (acc : TermLoad.Table × List Json) (j : Json) :
+    Except String (TermLoad.Table × List Json) := do
+  let t ← getStr j "t"
+  let u ← getNat j "u"
+  match t with
+  | "load" =>
+    let r := TermLoad.load files acc.1 u
+    pure (r.2, jobj [("outcome", encOutcome r.1), ("table", encLoaded r.2)] :: acc.2)
+  | "deferred" =>
+    let t' := TermLoad.deferredLoad files acc.1 u
+    pure (t', jobj [("table", encLoaded t')] :: acc.2)
+  | "rule" =>
+    let r := TermLoad.load files acc.1 u
+    let w := TermLoad.sectionWarnings r.1 (← getBool j "hasType")
+    pure (r.2, jobj [("warnings", jnat w), ("table", encLoaded r.2)] :: acc.2)
+  | "prule" =>
+    let r := TermLoad.load files acc.1 u
+    let w := match TermLoad.propertyWarnings r.1 (← getBool j "hasType") (← getBool j "hasName") with
+      | some n => jnat n
+      | none => jstr "raised"
+    pure (r.2, jobj [("warnings", w), ("table", encLoaded r.2)] :: acc.2)
+  | _ => throw s!"unknown loader op {t}"
+
 def handle (j : Json) : Except String Json := do
   let op ← getStr j "op"
   match op with
@@ -105,6 +148,14 @@ def handle (j : Json) : Except String Json := do
     let acts ← getArr j "acts"
     let r ← acts.toList.foldlM stepJson { st := init, users := [], out := [] }
     pure (jarr r.out.reverse)
+  | "loader" =>
+    let states ← (← getArr j "files").toList.mapM fun f => do
+      match f with
+      | .str s => decFile s
+      | _ => throw "bad file state"
+    let files : Nat → TermLoad.FileState := fun u => (states[u]?).getD .unreachable
+    let r ← (← getArr j "ops").toList.foldlM (loaderStep files) (([] : TermLoad.Table), ([] : List Json))
+    pure (jarr r.2.reverse)
   | "validate_with" =>
     -- issues for an explicit handler order: {"odML": [...], "section": [...], "property": [...]}
     let n ← DrvValid.decNode (← getStr j "kind") (← getVal j "node")
